@@ -41,6 +41,12 @@ const int Optimizer::max_loop_stack = 6;
 
 const int Optimizer::max_loop_count = 255;
 
+// The phrase a subroutine is made from is replaced by a call as well, so it needs room for one
+// more stack frame. It may sit deeper in the stack than the copies that find_match_length()
+// examines; it is held to the depth limit of the song validator (max_stack_depth in Player)
+// rather than to max_sub_stack. Every stack frame counts at least 1 in the stack analysis.
+const int Optimizer::max_src_stack = 10;
+
 int Optimizer::Stack_Analyzer::analyze_track(Song& song, Track& track, Optimizer& optimizer, int drum_mode)
 {
 	int loop_depth = 0;
@@ -262,14 +268,22 @@ Optimizer::Match Optimizer::find_match(uint32_t src_track, uint32_t src_start)
 
 	auto& track_map = song->get_track_map();
 
+	// Stack usage of the source track. find_match_length() checks the matched copies only; the
+	// source phrase is rewritten as well (it is replaced by a call to the subroutine, or it
+	// becomes the body of the new loop), so it needs room on the stack too.
+	Stack_Analyzer& src_stack = stack_analyzer[src_track];
+
 	// Prefix lengths of the source phrase that end outside of any nested loop. Only those
-	// can become a subroutine: a shorter prefix of a match may end inside a loop.
+	// can become a subroutine: a shorter prefix of a match may end inside a loop. The prefix
+	// also ends where the source phrase has no room on the stack for the call.
 	std::vector<bool> balanced(1, true);
 	{
 		Track& src = song->get_track(src_track);
 		int depth = 0;
 		for(unsigned int i = src_start; i < src.get_event_count() && depth >= 0; i++)
 		{
+			if(src_stack.event_list[i] + src_stack.base_usage >= max_src_stack)
+				break;
 			auto type = src.get_event(i).type;
 			if(type == Event::LOOP_START)
 				depth++;
@@ -290,6 +304,12 @@ Optimizer::Match Optimizer::find_match(uint32_t src_track, uint32_t src_start)
 			bool loop_valid = true;
 			for(unsigned int dst_pos = src_start + 1; dst_pos < dst.second.get_event_count(); dst_pos++)
 			{
+				// The new loop encloses every event from the start of the phrase up to its repetition,
+				// including the part after the loop break that is not matched: all of it needs room
+				// on the stack for one more loop
+				if(src_stack.event_list[dst_pos - 1] + src_stack.base_usage >= max_loop_stack)
+					loop_valid = false;
+
 				// Keep track of the loop depth, as we cannot break the loop hierarchy when creating a new loop
 				auto param = dst.second.get_event(dst_pos).type;
 				if(param == Event::SEGNO)
